@@ -58,8 +58,10 @@ func (gen *Generator) GenerateBegin(expressions []Sexp) error {
 	oldtail := gen.Tail
 	gen.Tail = false
 	if size == 0 {
+		// an empty body still has a value
+		gen.Tail = oldtail
+		gen.AddInstruction(PushInstr{SexpNull})
 		return nil
-		//return NoExpressionsFound
 	}
 	startInstructionCount := 0
 	for _, expr := range expressions[:size-1] {
@@ -1516,8 +1518,10 @@ func (gen *Generator) GenerateNewScope(expressions []Sexp) error {
 	oldtail := gen.Tail
 	gen.Tail = false
 	if size == 0 {
+		// an empty body still has a value
+		gen.Tail = oldtail
+		gen.AddInstruction(PushInstr{SexpNull})
 		return nil
-		//return NoExpressionsFound
 	}
 
 	gen.AddInstruction(AddScopeInstr{Name: "newScope"})
